@@ -1745,3 +1745,169 @@ func ruleSORT3(c *Ctx) []Ob {
 	}
 	return o.list
 }
+
+// ---------------------------------------------------------------- WIN2
+
+// WIN2: the skip/limit node as a transition system, whatever its shape. The
+// fields holding the query's skip and limit are found by data flow (what is
+// stored into the node from Query.GetSkip / GetLimit). For small skips and
+// limits the node's Callback is abstractly evaluated document after document
+// on one abstract node object (integer fields are constants the evaluator
+// folds; nothing of clover is run): document i must be forwarded exactly when
+// skip <= i and (limit < 0 or i < skip+limit), and a stop may only be
+// requested when no later document lies in the window.
+func ruleWIN2(c *Ctx) []Ob {
+	o := newObs(c, "WIN2")
+	var node *types.Named
+	sp := c.LibPkgs[c.ModPath]
+	if sp != nil {
+		var names []string
+		for n := range sp.Members {
+			names = append(names, n)
+		}
+		sort.Strings(names)
+		for _, nm := range names {
+			if tn, ok := sp.Members[nm].(*ssa.Type); ok {
+				if n, ok := tn.Type().(*types.Named); ok {
+					if _, isStruct := n.Underlying().(*types.Struct); isStruct && c.nodeKind(n) == "window" {
+						if m := c.lookupMethod("", n.Obj().Name(), "Callback"); m != nil && c.IsLib(m) && recvNamed(m) == n && node == nil {
+							node = n
+						}
+					}
+				}
+			}
+		}
+	}
+	if node == nil {
+		o.add(UNDECIDED, "window-node", "-", "skip/limit plan node not found")
+		return softenUndecided(o.list)
+	}
+	cb := c.lookupMethod("", node.Obj().Name(), "Callback")
+	st := node.Underlying().(*types.Struct)
+	fidx := map[string]int{}
+	for i := 0; i < st.NumFields(); i++ {
+		fidx[st.Field(i).Name()] = i
+	}
+	getSkip := c.lookupMethod("query", "Query", "GetSkip")
+	getLimit := c.lookupMethod("query", "Query", "GetLimit")
+	skipF, limitF := "", ""
+	for _, fn := range c.LibFuncs {
+		for _, b := range fn.Blocks {
+			for _, in := range b.Instrs {
+				s, ok := in.(*ssa.Store)
+				if !ok {
+					continue
+				}
+				_, f, n := fieldOfAddr(s.Addr)
+				if n == nil || !types.Identical(n, node) || !isIntType(s.Val.Type()) {
+					continue
+				}
+				var scan func(v ssa.Value, depth int, seen map[ssa.Value]bool)
+				scan = func(v ssa.Value, depth int, seen map[ssa.Value]bool) {
+					if depth > 6 || seen[v] {
+						return
+					}
+					seen[v] = true
+					cands := append(c.paramSources(v, 0), c.deepOrigins(v)...)
+					for _, og := range cands {
+						switch x := og.(type) {
+						case *ssa.Call:
+							if g := staticCallee(x); g != nil {
+								if c.declared(g) == getSkip {
+									skipF = f
+								}
+								if c.declared(g) == getLimit {
+									limitF = f
+								}
+							}
+							if b, ok := x.Common().Value.(*ssa.Builtin); ok && (b.Name() == "max" || b.Name() == "min") {
+								for _, a := range x.Common().Args {
+									scan(a, depth+1, seen)
+								}
+							}
+						case *ssa.BinOp:
+							scan(x.X, depth+1, seen)
+							scan(x.Y, depth+1, seen)
+						}
+					}
+				}
+				scan(s.Val, 0, map[ssa.Value]bool{})
+			}
+		}
+	}
+	pos := relPath(c, cb.Pos())
+	if skipF == "" || limitF == "" || skipF == limitF {
+		o.add(UNDECIDED, "window-node/configuration", pos, "the fields receiving Query.GetSkip() and Query.GetLimit() were not found")
+		return softenUndecided(o.list)
+	}
+	const docs = 7
+	bad, undec, n := "", "", 0
+	for _, skip := range []int64{0, 1, 3} {
+		for _, limit := range []int64{-1, 0, 1, 2, 5} {
+			te := c.newTagEval()
+			te.heap = map[int64]map[int]aval{}
+			forwarded := false
+			te.callHookEnv = func(call *ssa.Call, _ func(ssa.Value) aval) ([]aval, bool) {
+				if c.isCallbackForwarder(call) {
+					forwarded = true
+					return []aval{{K: aTag, Tag: nil}}, true
+				}
+				return nil, false
+			}
+			obj := te.newObj(map[int]aval{
+				fidx[skipF]:  {K: aConst, C: constant.MakeInt64(skip)},
+				fidx[limitF]: {K: aConst, C: constant.MakeInt64(limit)},
+			})
+			for i := int64(0); i < docs; i++ {
+				n++
+				forwarded = false
+				te.heapForked = false
+				te.steps = 0
+				args := make([]aval, len(cb.Params))
+				args[0] = obj
+				outs := te.Eval(cb, args, 0)
+				what := fmt.Sprintf("skip=%d limit=%d, document #%d", skip, limit, i)
+				if len(outs) != 1 || outs[0].Panic || te.heapForked || len(outs[0].Vals) != 1 {
+					undec = what + ": the transition is not decided by the node's integer state"
+					break
+				}
+				rv := outs[0].Vals[0]
+				stop := rv.K == aGlobal && strings.HasSuffix(globalFullName(rv.G), "/internal.ErrStopIteration")
+				isNil := rv.K == aTag && rv.Tag == nil
+				if !stop && !isNil {
+					undec = what + ": the result is neither nil nor the stop request (" + rv.String() + ")"
+					break
+				}
+				inWindow := i >= skip && (limit < 0 || i < skip+limit)
+				laterInWindow := limit < 0 || i+1 < skip+limit
+				switch {
+				case forwarded != inWindow && inWindow:
+					bad = what + ": lies in the window but is not passed to the next node"
+				case forwarded != inWindow:
+					bad = what + ": lies outside the window but is passed to the next node"
+				case stop && laterInWindow:
+					bad = what + ": the scan is told to stop although later documents lie in the window"
+				}
+				if stop || bad != "" {
+					break
+				}
+			}
+			if undec != "" {
+				break
+			}
+		}
+		if undec != "" {
+			break
+		}
+	}
+	key := node.Obj().Name() + ".Callback/window [skip, skip+limit) over 7 documents"
+	switch {
+	case bad != "":
+		o.add(VIOLATED, key, pos, "%s", bad)
+	case undec != "":
+		o.add(UNDECIDED, key, pos, "%s", undec)
+	default:
+		o.add(OK, key, pos, "skip in {0,1,3} x limit in {-1,0,1,2,5}: %d transitions, each document forwarded exactly when it lies in the window; stop only when the window is exhausted (configuration fields %s, %s)", n, skipF, limitF)
+	}
+	return softenUndecided(o.list)
+}
